@@ -108,7 +108,7 @@ mutual
     | "yield" => pure (.yield (← tok))
     | "hook" => pure (.hook (← tok))
     | "append" => do let o ← pInt; let out ← pNat; pure (.append o out)
-    | "appendc" => do let o ← pInt; let out ← pNat; let e ← pExpr; pure (.appendC o out e)
+    | "appendc" => do let o ← pInt; let out ← pNat; let each ← pNat; let e ← pExpr; pure (.appendC o out (each == 1) e)
     | "set" => do let out ← pNat; let e ← pExpr; pure (.set out e)
     | "setstr" => do let out ← pNat; let n ← pNat; let bs ← pMany n pNat; pure (.setStr out bs)
     | "delete" => pure (.delete (← pNat))
